@@ -16,12 +16,15 @@ fn conversions(ctx: &mut Ctx) {
         if ctx.lite {
             lens = vec![0, 1, 33];
         }
-        for (li, n) in lens.into_iter().enumerate() {
-            let pads: Vec<usize> = if ctx.lite { vec![(li + ctx.shard * 3) % 32] } else if ctx.tier == Tier::Thorough { (0..32).collect() } else { (0..32).filter(|o| (o + li) % 3 == 0).collect() };
+        // (len, Some(pad)): exact-fit operands — the converted window is the tail of an allocation without spare words
+        let plan = exact_plan(ctx, 2, lens);
+        for (li, (n, exact_pad)) in plan.into_iter().enumerate() {
+            let pads: Vec<usize> = if let Some(p) = exact_pad { vec![p] } else if ctx.lite { vec![(li + ctx.shard * 3) % 32] } else if ctx.tier == Tier::Thorough { (0..32).collect() } else { (0..32).filter(|o| (o + li) % 3 == 0).collect() };
             for pad in pads {
                 if ctx.over() {
                     break;
                 }
+                let _fit = exact_pad.map(|_| exact_fit_mode());
                 let x = cover_codes(&mut ctx.rng, d, n);
                 let p = Padded::<Dna>::new(&mut ctx.rng, pad, &x, 2);
                 let s = p.slice();
@@ -139,6 +142,9 @@ fn trim_one<C: CI>(ctx: &mut Ctx, v: &[u8], class: &str) {
     let name = C::NAME;
     ctx.eval();
     let want = trim_model(a, v);
+    // the input is handed over in a buffer of exactly its size (a read past its end leaves the allocation)
+    let boxed: Box<[u8]> = v.to_vec().into_boxed_slice();
+    let v: &[u8] = &boxed;
     let got = observe(|| Seq::<C>::trim_u8(v));
     let what = format!("{name} trim_u8({:?}) bytes {:02x?}", String::from_utf8_lossy(&v[..v.len().min(40)]), &v[..v.len().min(24)]);
     match (&want, got) {
@@ -218,6 +224,19 @@ fn trims<C: CI>(ctx: &mut Ctx) {
 
 fn main() {
     run_main("C19", |ctx| {
+        ctx.first_use_race(3, |t| {
+            let d: Seq<Dna> = "ACGTTGCAACGTACGTACGTACGTACGTACGTTTGAC".try_into().unwrap();
+            let i = Seq::<Iupac>::from(&d[t..]);
+            let x = Seq::<Text>::from(&d[t..]);
+            let back: Vec<Option<u8>> = x.iter().map(|b| Dna::try_from(b).ok().map(|q| q.to_bits())).collect();
+            (
+                i.to_string(), x.to_string(), back,
+                Seq::<Dna>::trim_u8(b"xxACGTxx\n").map(|s| s.to_string()).map_err(|e| format!("{e:?}")),
+                Seq::<Iupac>::trim_u8(b"  ACGTNRY  ").map(|s| s.to_string()).map_err(|e| format!("{e:?}")),
+                Seq::<Amino>::trim_u8(b"12MAGIC34").map(|s| s.to_string()).map_err(|e| format!("{e:?}")),
+                Seq::<Dna>::trim_u8(b"ACxGT").map(|s| s.to_string()).map_err(|e| format!("{e:?}")),
+            )
+        });
         conversions(ctx);
         for_each_codec!(trims, ctx);
         ctx.note("rule", json!("conversions: DNA slices of every length class at bit offsets (+owned copies, static literals, hand-built SeqArray<N,W>) to Seq<Iupac> and Seq<text::Dna>: same length, same letters, singleton sets, and text->DNA gives the bases back; all 256 text byte values (through try_from_bits and the unchecked constructors) to dna::Dna: Ok exactly for A,C,G,T else UnrecognisedBase(byte). Trimming, per codec: EVERY byte string of length 0..=8 over 2 acceptable + 2 unacceptable bytes (87381 strings) and structured inputs bad* core bad* with clean / empty / interior-bad cores (position len-2 over-represented), bad bytes from all 256 minus the alphabet; oracle = strict parse of the span between first and last acceptable byte. Distinct = input bytes."));
